@@ -1,5 +1,7 @@
 (* C08 - umbrella: Base (infrastructure, sync.Once invariant), Safety (writer protocol, store = commits),
    Life (scheduledCount accounting, termination of the writer, Stop waits), Complete (what Stop guarantees),
-   Value (per-object invariants: an accepted object is written with its last content), Progress (no stuck state),
+   Value (per-object invariants: an accepted object is written with its last content), Order (explicit order
+   invocation < BatchWrite < commit < BatchWriteDone for an accepted call), Progress (no stuck state,
+   acceptance before Stop), Finish (every reachable state has a continuation in which all calls return),
    Witness (pinned defects D08a/D08b, regressions). *)
-From Verif.C08_Batch Require Export Model Base Safety Life Complete Value Progress Witness.
+From Verif.C08_Batch Require Export Model Base Safety Life Complete Value Order Progress Finish Witness.
